@@ -604,10 +604,10 @@ func (ts *TermStore) Extract(a *Term, hi, lo uint8) *Term {
 		ilo := uint8(a.val & 0xff)
 		return ts.Extract(a.a[0], hi+ilo, lo+ilo)
 	case OpBAnd, OpBOr, OpBXor:
-		// push extract through bitwise ops when one side is constant (masks)
-		if a.a[1].IsConst() || a.a[0].IsConst() {
-			return ts.Bin(a.op, ts.Extract(a.a[0], hi, lo), ts.Extract(a.a[1], hi, lo))
-		}
+		// push extract through bitwise ops (bit-parallel): keeps word-at-a-time code byte-level
+		return ts.Bin(a.op, ts.Extract(a.a[0], hi, lo), ts.Extract(a.a[1], hi, lo))
+	case OpBNot:
+		return ts.Un(OpBNot, ts.Extract(a.a[0], hi, lo))
 	case OpShl:
 		// extract of (x << k) with constant k
 		if a.a[1].IsConst() {
